@@ -112,7 +112,9 @@ def decode_ovf(items, version_hint=None):
 
 def encode_ovf(version, rep, geom, nv, payload, unit="A/m", labels=None, sym=False, title="m"):
     """independent writer: returns a list of items (bytes / SymChunk).  payload: flat list in file order (x fastest)"""
-    (p1, p2, n) = geom
+    (q1, q2, n) = geom
+    p1 = [min(a, b) for a, b in zip(q1, q2)]  # the file states xmin <= xmax
+    p2 = [max(a, b) for a, b in zip(q1, q2)]
     cell = [(p2[a] - p1[a]) / n[a] for a in range(3)]
     lines = ["# OOMMF OVF 2.0" if version == 2 else "# OOMMF: rectangular mesh v1.0", "# Segment count: 1", "# Begin: Segment", "# Begin: Header", f"# Title: {title}", "# meshtype: rectangular", "# meshunit: m"]
     for a, k in enumerate("xyz"):
